@@ -37,7 +37,8 @@ SHARDS = {'quick': 8, 'thorough': 16}
 TIME_BUDGET = {'quick': 35, 'thorough': 330}
 
 _S = {'ctx': None, 'trace': None}
-METHODS = [('krylov', {}), ('krylov', {'line_search': 'wolfe'}), ('df-sane', {}), ('anderson', {}), ('broyden1', {})]
+METHODS = [('krylov', {}), ('krylov', {'line_search': 'wolfe'}), ('df-sane', {}), ('anderson', {}), ('broyden1', {}),
+           ('krylov', {'fatol': 1e-3}), ('krylov', {'jac_options': {'method': 'gmres', 'inner_maxiter': 40}}), ('anderson', {'fatol': 1e-4, 'jac_options': {'M': 8}})]   # loose tolerances: 'converged' with a sizeable reported residual
 
 
 def setup(ctx):
@@ -262,7 +263,7 @@ def run_case(ctx, case):
         ctx.hook('solve.deferred_after_system_edits')
     order = METHODS[case['first']:] + METHODS[:case['first']]
     if case['hybr']:
-        order = [('hybr', {})] + order
+        order = [('hybr' if case['seed'] % 2 else 'lm', {})] + order          # MINPACK methods (dense Jacobian): small grids only
     res = None
     used = None
     guess = None
@@ -277,8 +278,12 @@ def run_case(ctx, case):
         _S['trace'] = []
         opt = {'maxiter': 60 if meth == 'krylov' else (400 if meth != 'hybr' else 50)}
         opt.update(o)
-        if meth == 'hybr':
+        if meth in ('hybr', 'lm'):
             opt = {}
+        if case['guess'] == 'zero' and case['seed'] % 3 == 0 and guess is None:
+            # the all-zero first guess written as a 3-D array (length, rank, rank), as tutorial NB6 does
+            guess = np.zeros((sp['L'], n, n))
+            ctx.hook('solve.guess_given_as_3d_array')
         r1 = G.solve(p, meth, opt, guess=None if guess is None else np.array(guess), max_evals=1500)
         ctx.count('solve_outcome', '%s%s/%s' % (meth, 'w' if o else '', 'converged' if (r1 is not None and r1.success) else 'failed'))
         if r1 is not None and r1.success:
@@ -292,7 +297,7 @@ def run_case(ctx, case):
         _S['trace'] = []
         opt = {'maxiter': 60 if used[0] == 'krylov' else 400}
         opt.update(used[1])
-        if used[0] == 'hybr':
+        if used[0] in ('hybr', 'lm'):
             opt = {}
         r2 = G.solve(p, used[0], opt, guess=g2, max_evals=1500)
         if r2 is None or not r2.success:
@@ -305,7 +310,7 @@ def run_case(ctx, case):
         ctx.nontrivial([case['seed'], used[0], case['guess']])
     _S['trace'] = None
     ctx.count('category', '%s/%s%s' % (G.spec_signature(sp), used[0], 'w' if used[1] else ''))
-    ctx.count('method', '%s%s' % (used[0], '(wolfe)' if used[1] else ''))
+    ctx.count('method', '%s%s' % (used[0], ('(%s)' % ','.join(sorted(used[1]))) if used[1] else ''))
     ctx.count('rank', n)
     ctx.count('guess', case['guess'])
     ctx.count('domain_via', sp['via'])
